@@ -262,7 +262,24 @@ func c03Craft(s *vfSim, in *c03Inj, wire []vfWireEv) []byte {
 	case "shutdown":
 		return mk(wChunk{Type: wtSHUTDOWN, Cum: pk.CumAck})
 	case "hback":
-		c := wChunk{Type: wtHBACK, Params: []wTLV{{Type: 1, Val: make([]byte, in.A%20)}}}
+		// the information field: zeros of any length, or 8 bytes that read as a time stamp in the
+		// far future, just ahead of / behind the clock, or beyond int64
+		val := make([]byte, in.A%20)
+		switch in.B % 6 {
+		case 1:
+			val = make([]byte, 8)
+			binary.BigEndian.PutUint64(val, 0x7fffffffffffffff)
+		case 2:
+			val = make([]byte, 8)
+			binary.BigEndian.PutUint64(val, uint64(time.Now().Add(time.Second).UnixNano()))
+		case 3:
+			val = make([]byte, 8)
+			binary.BigEndian.PutUint64(val, uint64(time.Now().Add(-3*time.Millisecond).UnixNano()))
+		case 4:
+			val = make([]byte, 8)
+			binary.BigEndian.PutUint64(val, 0xfffffffffffffff0)
+		}
+		c := wChunk{Type: wtHBACK, Params: []wTLV{{Type: 1, Val: val}}}
 		c.encodeBody()
 		return mk(c)
 	case "hb":
